@@ -21,6 +21,7 @@ type c17Set struct {
 	Ups      []*c17Up
 	Bases    []string
 	Injected []string // header names the configuration injects (C07's business: excluded from the comparison)
+	Light    bool     // reduced workload (order-permutation sets)
 	ExtraYML string
 
 	Proxy  *vfProxy
@@ -57,6 +58,38 @@ func c17WriteFiles(w *vfWorld) string {
 func c17HTTP(id, path, up string) *c17Up {
 	return &c17Up{ID: id, Kind: "http", Path: path, UpName: up, PassHost: true}
 }
+func c17WithURIPath(u *c17Up, p string) *c17Up { u.URIPath = p; return u }
+
+// c17PermSets: the same three overlapping rewrite rules (different rewriteTarget and upstream each) plus two plain
+// prefixes, configured in every order of the rules and with the plain upstreams at varying positions. The reference
+// outcome does not depend on the configured order.
+func c17PermSets() []*c17Set {
+	mk := func() map[string]*c17Up {
+		return map[string]*c17Up{
+			"gen":   c17RW("gen", "^/api/(.*)$", "/gen/$1", "u1"),
+			"v2":    c17WithURIPath(c17RW("v2", "^/api/v2/(.*)$", "/v2/$1?ver=2", "u2"), "/backend"),
+			"users": c17RW("users", "^/api/v2/users/(.*)$", "/u/$1", "u3"),
+			"pfx":   c17HTTP("pfx", "/api/", "u4"),
+			"root":  c17HTTP("root", "/", "u0"),
+		}
+	}
+	orders := [][]string{
+		{"users", "v2", "gen", "pfx", "root"}, {"users", "root", "gen", "v2", "pfx"}, {"v2", "users", "pfx", "gen", "root"},
+		{"root", "v2", "gen", "users", "pfx"}, {"gen", "pfx", "users", "root", "v2"}, {"pfx", "gen", "v2", "root", "users"},
+	}
+	var out []*c17Set
+	for k, o := range orders {
+		m := mk()
+		st := &c17Set{Name: fmt.Sprintf("alpha-rwperm-%d", k), Light: true,
+			Bases: []string{"/api/", "/api/v2/", "/api/v2/users/", "/api/v2/users", "/api/v2", "/api", "/", "/api%2Fv2/", "/apix/", "/api/v2/usersx/"}}
+		for _, id := range o {
+			st.Ups = append(st.Ups, m[id])
+		}
+		out = append(out, st)
+	}
+	return out
+}
+
 func c17RW(id, pattern, target, up string) *c17Up {
 	return &c17Up{ID: id, Kind: "http", Path: pattern, Rewrite: target, Re: regexp.MustCompile(pattern), UpName: up, PassHost: true}
 }
@@ -88,11 +121,11 @@ func c17Sets(w *vfWorld) []*c17Set {
 		{Name: "alpha-rewrite",
 			Ups: []*c17Up{c17HTTP("root", "/", "u0"), c17RW("rw", "^/rw/(.*)$", "/t/$1", "u1"), c17RW("rwlong", "^/rw/long/(.*)$", "/long/$1?added=1&k=v%20w", "u2"), c17HTTP("rw-prefix", "/rw/", "u3"),
 				c17HTTP("deeper", "/rw/long/deeper/x/", "u4"), c17RW("swap", "^/sw/([^/]+)/([^/]+)$", "/$2/$1", "u5"), c17RW("old", "^/old/v[0-9]+/", "/new/", "u6"),
-				c17RW("q", "^/q/([a-z]*)$", "/search?path=$1&fixed=1", "u7"), c17RW("same", "^/same/(.*)$", "/same/$1", "u8")},
+				c17RW("q", "^/q/([a-z]*)$", "/search?path=$1&fixed=1", "u7"), c17WithURIPath(c17RW("same", "^/same/(.*)$", "/same/$1", "u8"), "/pfx/")},
 			Bases: []string{"/rw/", "/rw/long/", "/rw/long/deeper/x/", "/rw", "/sw/", "/sw/a/", "/old/v1/", "/old/v22/", "/old/vx/", "/q/", "/same/", "/", "/rw%2F", "/rwx/", "/rw%2Flong%2F"}},
 		{Name: "alpha-raw", Raw: true,
 			Ups: []*c17Up{c17HTTP("root", "/", "u0"), nohost(c17HTTP("a", "/a/", "u1")), c17HTTP("ab", "/a/b/", "u2"), c17HTTP("exact", "/exact", "u3"),
-				{ID: "st", Kind: "static", Path: "/st/", StaticCode: 418}, c17HTTP("sib", "/ab/", "u4"), c17HTTP("abc", "/a/b/c/", "u5")},
+				{ID: "st", Kind: "static", Path: "/st/", StaticCode: 418}, c17WithURIPath(c17HTTP("sib", "/ab/", "u4"), "/x/"), c17HTTP("abc", "/a/b/c/", "u5")},
 			Bases: []string{"/", "/a/", "/a/b/", "/a%2Fb/", "/a%2fb/", "/%61/", "/exact", "/st/", "/a", "/a/%2F/", "/a/%2E/", "/a/%2e%2e/", "/a%2F", "/a%2f", "/a/b%2F", "/a/b%2Fc", "/a/b%2Fc/", "/a/b%2fc%2F",
 				"/ab%2F", "/ab/", "/a%2Fb%2Fc%2F", "/st%2F", "/exact%2F", "/%65xact", "/a/b/c/", "/a/b/c%2F"}},
 		{Name: "alpha-raw-rewrite-noroot", Raw: true,
@@ -101,11 +134,12 @@ func c17Sets(w *vfWorld) []*c17Set {
 		{Name: "alpha-mixed-inject",
 			Ups: []*c17Up{{ID: "docs", Kind: "file", Path: "^/docs/(.*)$", Rewrite: "/$1", Re: regexp.MustCompile("^/docs/(.*)$"), Dir: dir}, {ID: "files", Kind: "file", Path: "/files/", Dir: dir},
 				{ID: "ok", Kind: "static", Path: "/ok", StaticCode: 200}, {ID: "st", Kind: "static", Path: "/st/", StaticCode: 418},
-				nohost(c17HTTP("a", "/a/", "u1")), c17HTTP("b", "/b/", "u2"), c17RW("api", "^/api/(v[0-9]+)/(.*)$", "/$2?version=$1", "u3")},
+				nohost(c17HTTP("a", "/a/", "u1")), c17WithURIPath(c17HTTP("b", "/b/", "u2"), "/base"), c17RW("api", "^/api/(v[0-9]+)/(.*)$", "/$2?version=$1", "u3")},
 			Bases:    []string{"/docs/", "/files/", "/ok", "/ok/", "/st/", "/st", "/a/", "/b/", "/api/v1/", "/api/v22/", "/api/vx/", "/", "/a"},
 			Injected: []string{"X-Custom-User", "X-Custom-Email"},
 			ExtraYML: "injectRequestHeaders:\n- name: X-Custom-User\n  values:\n  - claim: user\n- name: X-Custom-Email\n  values:\n  - claim: email\n"},
 	}
+	sets = append(sets, c17PermSets()...)
 	for _, s := range sets {
 		if s.Legacy {
 			s.Injected = []string{"X-Forwarded-User", "X-Forwarded-Email", "X-Forwarded-Groups", "X-Forwarded-Preferred-Username"}
@@ -160,7 +194,7 @@ func (s *c17Set) build(w *vfWorld) error {
 			}
 			switch u.Kind {
 			case "http":
-				fmt.Fprintf(&y, "    uri: %s\n", w.Upstream(u.UpName).URL())
+				fmt.Fprintf(&y, "    uri: %s%s\n", w.Upstream(u.UpName).URL(), u.URIPath)
 				if !u.PassHost {
 					y.WriteString("    passHostHeader: false\n")
 				}
